@@ -428,7 +428,7 @@ class LtOrder(Base):
 # ---------------------------------------------------------------------------------------------
 # _add_child / remove_child: sortedness, duplicates, accounting, dot lengths
 # ---------------------------------------------------------------------------------------------
-def directory(c, nfiles, is_root):
+def directory(c, nfiles, is_root, dirname=b'DIR'):
     """a directory in CHILD-INV: '.', '..', then nfiles plain files with distinct 3-byte identifiers in order; positions = next-fit"""
     a = c.a
     # a small block size makes the overflow branch reachable with a handful of records (the code is generic in it); records stay
@@ -447,7 +447,7 @@ def directory(c, nfiles, is_root):
     a.kids = []
     for j in range(2 + nfiles):
         a.kids.append(c.obj(DR, initialized=True, file_ident=a.idents[j], dr_len=a.lens[j], isdir=(j < 2), file_flags=(2 if j < 2 else 0),
-                            data_length=(a.dlen if j == 0 or (j == 1 and is_root) else c.int('len%d' % j, 0, 1 << 30)), rock_ridge=None,
+                            data_length=(a.dlen if j == 0 or (j == 1 and is_root) else c.int('len%d' % j, 0, (1 << 32) - 1)), rock_ridge=None,
                             children=[], extents_to_here=pack[j][0], offset_to_here=pack[j][1], index_in_parent=j, data_continuation=None))
     # the directory's own length covers its records (whole sectors)
     k, r = c.divmod(a.dlen, a.lbs)
@@ -455,7 +455,7 @@ def directory(c, nfiles, is_root):
     a.pack0 = pack
     parent = None if is_root else c.obj(DR, initialized=True, isdir=True)
     return c.obj(DR, initialized=True, isdir=True, parent=parent, rock_ridge=None, data_length=a.dlen, children=list(a.kids), rr_children=[],
-                 file_ident=b'\x00' if is_root else b'DIR', _printable_name=b'/' if is_root else b'DIR')
+                 file_ident=b'\x00' if is_root else dirname, _printable_name=b'/' if is_root else dirname)
 
 
 @contract
@@ -466,13 +466,14 @@ class AddChild(Base):
     target = DR + '._add_child'
     nfiles = 1
     is_root = False
+    dirname = 'DIR'   # also checked for a directory that merely happens to be called RR_MOVED on an image without Rock Ridge
 
     def expected_covers(self):
         return ('return', 'raise:PyCdlibInvalidInput') if self.nfiles else ('return',)
 
     def setup(self, c):
         a = c.a
-        a.self = directory(c, self.nfiles, self.is_root)
+        a.self = directory(c, self.nfiles, self.is_root, self.dirname.encode('ascii'))
         a.newlen = c.int('new_dr_len', 34, 254)
         a.newid = c.bytes('new_name', 3)
         c.assume(V.items_of(a.newid)[0] >= 0x30)
@@ -519,3 +520,83 @@ class AddChild(Base):
 
     def observe(self, c, a, out):
         return {'kind': out.kind, 'exc': out.exc, 'n': len(a.self.children), 'len': a.self.data_length}
+
+
+# ---------------------------------------------------------------------------------------------
+# DR-INV is established by new_file / new_dir (no Rock Ridge)
+# ---------------------------------------------------------------------------------------------
+from contracts.dates import ZoneMixin  # noqa
+
+
+@contract
+class DRNewFile(ZoneMixin, Base):
+    """C03 DR-INV establish + C13 'fits the on-disc field': new_file builds a record whose length byte is the ECMA-119 length of
+    its content and fits one byte; an identifier (with XA) that cannot fit a 255-byte record, or a length that does not fit
+    32 bits, is refused with InvalidInput at the time of the edit - not later at write time."""
+    target = DR + '.new_file'
+    len_fi = 8
+    xa = False
+
+    def setup(self, c):
+        self.zone(c)
+        a = c.a
+        a.name = c.bytes('isoname', self.len_fi)
+        a.length = c.int('length', 0, 1 << 33)
+        a.seq = c.int('seqnum', 0, 65535)
+        a.vd = c.obj('pycdlib.headervd.PrimaryOrSupplementaryVD', _initialized=True, encoding='utf-8')
+        a.parent = c.obj(DR, initialized=True, is_root=True, isdir=True, rock_ridge=None)
+        a.self = c.new(DR)
+        return Call([a.vd, a.length, a.name, a.parent, a.seq, '', b'', self.xa, 0o100444, a.t], self_obj=a.self)
+
+    def fits(self):
+        return spec_dr_len(self.len_fi, self.xa) <= 255
+
+    def raises(self, c, a):
+        return {'PyCdlibInvalidInput': Or(a.length > (1 << 32) - 1, not self.fits())}
+
+    def expected_covers(self):
+        return ('return', 'raise:PyCdlibInvalidInput') if self.fits() else ('raise:PyCdlibInvalidInput',)
+
+    def post(self, c, a, out):
+        s = a.self
+        return {'dr-inv': And(s.dr_len == spec_dr_len(self.len_fi, self.xa), s.dr_len <= 255, s.len_fi == self.len_fi, Eq(s.file_ident, a.name),
+                              s.data_length == a.length, s.seqnum == a.seq, s.file_flags == 0, s.xattr_len == 0, s.file_unit_size == 0,
+                              s.interleave_gap_size == 0, Eq(s.isdir, False), Eq(s.initialized, True)),
+                'xa-iff-requested': (s.xa_record is not None) == bool(self.xa),
+                'date-offset-is-zone': s.date.gmtoffset == a.z}
+
+    def observe(self, c, a, out):
+        return {'kind': out.kind, 'exc': out.exc, 'dr_len': getattr(a.self, 'dr_len', None) if out.kind == 'return' else None}
+
+
+@contract
+class AddChildToDrDuplicate(Base):
+    """C13/dup: adding a record whose identifier already exists in the directory is refused with InvalidInput and changes nothing -
+    a second file of the same name is never silently merged into the first.  The single documented exception is the next extent
+    of a multi-extent (> 4 GiB) file, whose earlier extents are all full (0xfffff800 bytes)."""
+    target = 'pycdlib.pycdlib.PyCdlib._add_child_to_dr'
+    covers = ('return', 'raise:PyCdlibInvalidInput')
+
+    def setup(self, c):
+        a = c.a
+        a.dir = directory(c, 1, False)
+        a.exist_len = a.kids[2].data_length
+        a.child = c.obj(DR, initialized=True, file_ident=a.idents[2], dr_len=a.lens[2], isdir=False, file_flags=0, rock_ridge=None, children=[],
+                        extents_to_here=1, offset_to_here=0, index_in_parent=-1, data_continuation=None, data_length=c.int('new_len', 0, (1 << 32) - 1),
+                        parent=a.dir)
+        a.self = c.obj('pycdlib.pycdlib.PyCdlib', _initialized=True, logical_block_size=a.lbs)
+        return Call([a.child], self_obj=a.self)
+
+    def raises(self, c, a):
+        return {'PyCdlibInvalidInput': a.exist_len != 0xfffff800}
+
+    def post_raise(self, c, a, out):
+        kids = a.dir.children
+        return {'directory-unchanged': len(kids) == 3 and all(x is y for x, y in zip(kids, a.kids)),
+                'existing-record-untouched': And(a.kids[2].data_continuation is None, a.kids[2].file_flags == 0)}
+
+    def post(self, c, a, out):
+        return {'continuation-linked': a.kids[2].data_continuation is a.child}
+
+    def observe(self, c, a, out):
+        return {'kind': out.kind, 'exc': out.exc, 'n': len(a.dir.children)}
